@@ -487,6 +487,146 @@ def conflict_program(t, ak):
     return src
 
 
+# ---- leg 4: the per-module cache of generic function instantiations ---------------------------------------------
+FI_DECL = '''Wir nennen eine Zahl öffentlich auch eine Nummer.
+
+Die öffentliche generische Funktion ident mit dem Parameter a vom Typ T, gibt ein T zurück, macht:
+	Gib a zurück.
+Und kann so benutzt werden:
+	"ident <a>"
+
+Die öffentliche generische Funktion pluseins mit dem Parameter a vom Typ T, gibt ein T zurück, macht:
+	Gib a plus 1 zurück.
+Und kann so benutzt werden:
+	"pluseins <a>"
+
+Die öffentliche generische Funktion zwei mit den Parametern a und b vom Typ T und R, gibt ein T zurück, macht:
+	Gib a zurück.
+Und kann so benutzt werden:
+	"zwei <a> und <b>"
+
+Die öffentliche generische Funktion setze mit dem Parameter a vom Typ T Referenz, gibt nichts zurück, macht:
+	Speichere a in a.
+Und kann so benutzt werden:
+	"Setze <a>"
+
+Die öffentliche generische Funktion messe mit dem Parameter l vom Typ T Liste, gibt eine Zahl zurück,
+ist in "ext.c" definiert
+und kann so benutzt werden:
+	"messe <l>"
+'''
+# variable name -> (declaration, model spec, printed parameter type)
+FI_VARS = dict(z=("Die Zahl z ist 1.", "Z", "Zahl"), k=("Die Kommazahl k ist 1,5.", "K", "Kommazahl"), t=("Der Text t ist \"x\".", "T", "Text"),
+               n=("Die Nummer n ist 2.", "A#9(Z)", "Nummer"), lz=("Die Zahlen Liste lz ist eine leere Zahlen Liste.", "L(Z)", "Zahlen_Liste"),
+               lt=("Die Text Liste lt ist eine leere Text Liste.", "L(T)", "Text_Liste"), lk=("Die Kommazahlen Liste lk ist eine leere Kommazahlen Liste.", "L(K)", "Kommazahlen_Liste"))
+FI_FUNS = dict(ident=(1, False), pluseins=(2, False), zwei=(4, False), setze=(5, False), messe=(3, True))
+FI_MODS = dict(decl=1, mid=2, main=3)
+
+
+def fi_program(rng):
+    """(files, model script lines, per call: (module, function, fails))"""
+    def calls(mod, n):
+        out = []
+        for _ in range(n):
+            f = rng.choice(["ident", "ident", "pluseins", "zwei", "setze", "messe", "messe"])
+            if f == "messe":
+                a = [rng.choice(["lz", "lt", "lk"])]
+                params = [(FI_VARS[a[0]][1], 0)]
+                txt = "messe %s" % a[0]
+            elif f == "zwei":
+                a = [rng.choice(["z", "k", "t", "n"]), rng.choice(["z", "t", "lz"])]
+                params = [(FI_VARS[x][1], 0) for x in a]
+                txt = "zwei %s und %s" % tuple(a)
+            else:
+                a = [rng.choice(["z", "k", "t", "n", "lz"])]
+                params = [(FI_VARS[a[0]][1], 1 if f == "setze" else 0)]
+                txt = {"ident": "ident %s", "pluseins": "pluseins %s", "setze": "Setze %s"}[f] % a[0]
+            fails = f == "pluseins" and a[0] in ("t", "lz")
+            out.append((mod, f, txt, params, fails))
+        return out
+    cm, ca = calls("mid", rng.randint(0, 5)), calls("main", rng.randint(3, 10))
+    files = {"decl.ddp": FI_DECL}
+    for mod, cs, imp in (("mid", cm, 'Binde "decl" ein.\n'), ("main", ca, 'Binde "decl" ein.\nBinde "mid" ein.\n')):
+        lines = [imp] + [v[0] for v in FI_VARS.values()]
+        for i, (_, f, txt, _, _) in enumerate(cs):
+            lines.append(txt + "." if f == "setze" else "Die Variable r%d ist %s." % (i, txt))
+        files[mod + ".ddp"] = "\n".join(lines) + "\n"
+    script = ["FR"] + ["FX %d %d 1" % (fid, 1 if ext else 0) for fid, ext in FI_FUNS.values()]
+    for mod, f, txt, params, fails in cm + ca:          # parse order: the imported module first
+        script.append("FQ %d - %d %s" % (FI_FUNS[f][0], FI_MODS[mod], " ".join("%s:%d" % p for p in params)))
+    return files, script, cm + ca
+
+
+def leg_funinst(ck, b, typex, model, n):
+    """seeded programs (declaring module, a second importing module, main) calling generic functions (one extern, one whose
+    body fails for non-numeric types, one with a Referenz parameter, one with two type parameters; arguments also through
+    a type alias): the instance returned for every call (by pointer identity) and the final contents of
+    GenericFuncInfo.Instantiations must be what the extracted model GenericFun.fstep computes for the same requests"""
+    root = vlib.scratch()
+    progs = [fi_program(ck.rng) for _ in range(n)]
+    nh = 1 + len(FI_FUNS)
+    text = ""
+    for files, script, cs in progs:
+        lines = list(script[:nh])
+        for c, q in zip(cs, script[nh:]):
+            lines.append(q)
+            if c[4]:
+                lines.append("FF @")          # the body of the instantiation just requested fails
+        text += "\n".join(lines) + "\nFD\nFZ\n"
+    mout = c14.run_tool(model, text)
+    m_results, cur = [], []
+    for l in mout:
+        if l == "FZ":
+            m_results.append(cur)
+            cur = []
+        else:
+            cur.append(l)
+    for i, (files, script, cs) in enumerate(progs):
+        d = os.path.join(root, "fi%d" % i)
+        os.makedirs(d)
+        for f, t in files.items():
+            open(os.path.join(d, f), "w").write(t)
+    out = c14.run_tool(typex, "".join("FI %s\n" % os.path.join(root, "fi%d" % i, "main.ddp").encode().hex() for i in range(n)))
+    impl, cur = [], []
+    for l in out:
+        cur.append(l)
+        if l.startswith("FI "):
+            impl.append(cur)
+            cur = []
+    mism = []
+    names = {v[1]: v[2] for v in FI_VARS.values()}
+    fname = {v[0]: k for k, v in FI_FUNS.items()}
+    mname = {v: k for k, v in FI_MODS.items()}
+    n_calls = 0
+    for (files, script, cs), mo, io in zip(progs, m_results, impl):
+        ck.count(len(cs))
+        n_calls += len(cs)
+        fq = [l.split() for l in mo if l.startswith("FQ ")]
+        inst = [None if c[4] else int(q[2]) for c, q in zip(cs, fq)]     # failing calls yield no call node
+        # as the harness prints: modules sorted by name (main, mid), source order, renumbered by first appearance
+        order = [i for i, c in enumerate(cs) if c[0] == "main"] + [i for i, c in enumerate(cs) if c[0] == "mid"]
+        seen, want_fc = {}, []
+        for i in order:
+            if inst[i] is not None:
+                seen.setdefault(inst[i], len(seen))
+                want_fc.append("FC %s %s %d" % (cs[i][0], cs[i][1], seen[inst[i]]))
+        want_fe = sorted("FE %s %s %s" % (fname[int(l.split()[1])], mname[int(l.split()[2])], ";".join(names[x.rstrip("&")] for x in l.split()[3].split(";")))
+                         for l in mo if l.startswith("FE "))
+        got_fc = [l for l in io if l.startswith("FC ")]
+        got_fe = sorted(l for l in io if l.startswith("FE "))
+        n_fail = sum(1 for c in cs if c[4])
+        got_err = int(io[-1].split()[1])
+        if want_fc != got_fc or want_fe != got_fe or (n_fail == 0) != (got_err == 0):
+            mism.append(dict(files=files, model_calls=want_fc, implementation_calls=got_fc, model_cache=want_fe, implementation_cache=got_fe, failing_calls=n_fail, errors=got_err))
+        else:
+            live = [x for x in inst if x is not None]
+            if len(set(live)) < len(live):
+                ck.nontrivial(("fi", tuple(want_fc)))
+    if mism:
+        ck.broken_obligation("function instantiation cache: model GenericFun.v vs parser.InstantiateGenericFunction disagree on %d of %d programs, e.g. %s" % (len(mism), n, str(mism[0])[:1500]), str(mism[0]))
+    return dict(programs=n, calls=n_calls, mismatches=len(mism))
+
+
 def main():
     ck = Check(PID, "proof")
     b = Build()
@@ -510,6 +650,9 @@ def main():
     # ---- leg 1: type level
     tl = c15_typelevel.run(ck, b, 1500 if ck.quick else 20000, seed=ck.seed)
     log("[c15] type-level leg: %d scenarios, %d answers, %s in %.1fs" % (tl["scenarios"], tl["lines"], tl["stats"], time.time() - t0))
+    # ---- leg 4: function instantiation cache (model GenericFun.v)
+    fi = leg_funinst(ck, b, typex, model, 60 if ck.quick else 1500)
+    log("[c15] function-instantiation-cache leg: %s" % fi)
     # ---- bindings of every call, by the model and by the real unifier
     calls = []
     for t in TEMPLATES.values():
@@ -617,6 +760,7 @@ def main():
         templates=len(TEMPLATES), instantiations_per_placement=sum(len(t.tuples) for t in TEMPLATES.values()), program_pairs=len(jobs), instantiations_run=n_inst,
         placements=["declaring-module", "importing-module", "two-importing-modules (identi, doppelt, mitglobal, typkombi, typalias, typdef)"], conflict_calls=len(neg), conflict_calls_rejected=n_rej,
         typelevel=dict(scenarios=tl["scenarios"], answers=tl["lines"], stats=tl["stats"]),
+        function_instantiation_cache=fi,
         exhaustive=False,
         exhaustive_legs=["every template x every applicable tuple over {Zahl, Kommazahl, Text, Buchstabe, Zahlen Liste, Text Liste, Punkt, Zahl-Paar} (two-parameter templates: all 64 / 32 pairs) x both placements",
                          "conflict calls: all ordered pairs of the 8 types for waehle, of the 4 scalar types for anfuegen/listeaus"],
